@@ -57,7 +57,8 @@ def generic_pool(seed):
     return pool
 
 
-def check_shape(part, normals, energies, case, key, scale_test=False):
+def check_shape(part, normals, energies, case, key, scale_test=False, rt=1e-6):
+    """rt: relative resolution of the comparison (vertices closer than rt x the largest energy are not told apart)"""
     from chmpy.crystal.wulff import WulffConstruction
 
     if len(normals) < 4 or not halfspace.bounded(normals):
@@ -65,8 +66,8 @@ def check_shape(part, normals, energies, case, key, scale_test=False):
         return
     part.ev()
     part.tr()
-    ref_v = halfspace.vertices(normals, energies)
-    ref_vol, ref_nf = halfspace.volume_and_facets(normals, energies, ref_v)
+    ref_v = halfspace.vertices(normals, energies, dedupe_rel=0.1 * rt)
+    ref_vol, ref_nf = halfspace.volume_and_facets(normals, energies, ref_v, tol=0.1 * rt)
     scale = float(np.abs(energies).max())
     try:
         w = WulffConstruction(np.array(normals), np.array(energies))
@@ -81,7 +82,7 @@ def check_shape(part, normals, energies, case, key, scale_test=False):
     part.dev("inequality_violation", max(worst, 0.0))
     if not (worst <= 1e-7):
         part.fail("vertex-outside:%s" % key, "a vertex violates a facet inequality by %.3g (relative)" % worst, case)
-    nb = (np.abs(slack) < 1e-6 * scale).sum(axis=1)
+    nb = (np.abs(slack) < rt * scale).sum(axis=1)
     if (nb < 3).any():
         part.fail("vertex-not-on-3-facets:%s" % key, "%d vertex/vertices lie on fewer than three facets" % int((nb < 3).sum()), case)
     # facet membership lists: every vertex listed for facet i lies on plane i, and every vertex on plane i that bounds a
@@ -93,12 +94,12 @@ def check_shape(part, normals, energies, case, key, scale_test=False):
         else:
             for i, lst in enumerate(F):
                 lst = list(lst)
-                if lst and not (np.abs(V[lst] @ np.asarray(normals)[i] - energies[i]).max() <= 1e-6 * scale):
+                if lst and not (np.abs(V[lst] @ np.asarray(normals)[i] - energies[i]).max() <= rt * scale):
                     part.fail("facet-membership:%s" % key, "facet %d lists a vertex that does not lie on its plane" % i, case)
                     break
-                on_ref = ref_v[np.abs(ref_v @ np.asarray(normals)[i] - energies[i]) < 1e-7 * scale]
+                on_ref = ref_v[np.abs(ref_v @ np.asarray(normals)[i] - energies[i]) < 0.1 * rt * scale]
                 if len(on_ref) >= 3 and len(lst):
-                    listed = halfspace.dedupe(V[lst], 1e-6 * scale)
+                    listed = halfspace.dedupe(V[lst], rt * scale)
                     if len(listed) != len(on_ref):
                         part.fail("facet-vertices:%s" % key, "facet %d lists %d distinct vertices, the half-space intersection has %d on that plane" % (i, len(listed), len(on_ref)), case)
                         break
@@ -108,7 +109,7 @@ def check_shape(part, normals, energies, case, key, scale_test=False):
                         break
     except Exception as e:
         part.fail("facet-lists-raise:%s" % key, "reading wulff_facets raised %r" % e, case)
-    lib_v = halfspace.dedupe(V, 1e-6 * scale)
+    lib_v = halfspace.dedupe(V, rt * scale)
     # set equality with the reference
     def subset(X, Y):
         if len(X) == 0:
@@ -116,7 +117,7 @@ def check_shape(part, normals, energies, case, key, scale_test=False):
         if len(Y) == 0:
             return False
         d = np.abs(X[:, None, :] - Y[None, :, :]).max(axis=2).min(axis=1)
-        return bool((d < 1e-6 * scale).all())
+        return bool((d < rt * scale).all())
 
     if not (subset(lib_v, ref_v) and subset(ref_v, lib_v)):
         part.fail("vertex-set:%s" % key, "vertex set differs from the half-space intersection: %d distinct library vertices vs %d reference vertices"
@@ -124,7 +125,7 @@ def check_shape(part, normals, energies, case, key, scale_test=False):
     # mesh
     try:
         tm = w.to_trimesh()
-        mv, mf, ndeg = mesh.merge_vertices(np.asarray(tm.vertices), np.asarray(tm.faces), 1e-6 * scale)
+        mv, mf, ndeg = mesh.merge_vertices(np.asarray(tm.vertices), np.asarray(tm.faces), rt * scale)
         # drop zero-area triangles (collinear after merging)
         a, b, c = mv[mf[:, 0]], mv[mf[:, 1]], mv[mf[:, 2]]
         area = 0.5 * np.linalg.norm(np.cross(b - a, c - a), axis=1)
@@ -145,7 +146,7 @@ def check_shape(part, normals, energies, case, key, scale_test=False):
         tm.vertices *= 2.5
         tm.vertices += np.array([3.0, -1.0, 0.5])
         tm2 = w.to_trimesh()
-        mv2, mf2, _ = mesh.merge_vertices(np.asarray(tm2.vertices), np.asarray(tm2.faces), 1e-6 * scale)
+        mv2, mf2, _ = mesh.merge_vertices(np.asarray(tm2.vertices), np.asarray(tm2.faces), rt * scale)
         part.tr()
         if len(mv2) != len(mv) or not (subset(mv2, mv) and subset(mv, mv2)) or not (abs(abs(mesh.signed_volume(mv2, mf2)) - abs(mesh.signed_volume(mv, mf))) <= 1e-7 * ref_vol) \
                 or not (np.abs(np.asarray(w.wulff_vertices, dtype=float) - V_before).max() <= 0):
@@ -159,7 +160,7 @@ def check_shape(part, normals, energies, case, key, scale_test=False):
             part.tr()
             try:
                 w3 = WulffConstruction(nrm, en)
-                v3 = halfspace.dedupe(np.asarray(w3.wulff_vertices, dtype=float), 1e-6 * scale)
+                v3 = halfspace.dedupe(np.asarray(w3.wulff_vertices, dtype=float), rt * scale)
                 if not (subset(v3, lib_v) and subset(lib_v, v3)):
                     part.fail("container-dependence:%s:%s" % (cname, key), "normals given as %s give another vertex set than the same normals as floats (%d vs %d vertices)" % (cname, len(v3), len(lib_v)), case)
             except Exception as e:
@@ -169,7 +170,7 @@ def check_shape(part, normals, energies, case, key, scale_test=False):
             part.tr()
             try:
                 w2 = WulffConstruction(np.array(normals), np.array(energies) * s)
-                v2 = halfspace.dedupe(np.asarray(w2.wulff_vertices, dtype=float), 1e-6 * scale * s)
+                v2 = halfspace.dedupe(np.asarray(w2.wulff_vertices, dtype=float), rt * scale * s)
                 if not (subset(v2 / s, lib_v) and subset(lib_v, v2 / s)):
                     part.fail("scaling:%s" % key, "scaling all energies by %g does not scale the vertex set by %g" % (s, s), case)
             except Exception as e:
@@ -234,7 +235,29 @@ def vicinal_worker(part, _):
     part.nontriv("vicinal")
 
 
+def small_facet_worker(part, _):
+    """
+    a facet much smaller than the crystal: a cube of size E with one corner (or all eight) cut by a {111} plane that leaves a triangle of
+    relative edge 1e-3 .. 3e-7 - at sizes where that triangle is still far larger than any absolute tolerance (E = 1e3: 1 .. 3e-4
+    in absolute terms).  Compared at a resolution of 1e-9 of the size
+    """
+    ax = [unit(a) * s for a in ((1, 0, 0), (0, 1, 0), (0, 0, 1)) for s in (1, -1)]
+    for E, rels in ((1.0, (1e-3, 1e-4)), (1e3, (1e-3, 1e-4, 1e-5, 1e-6, 3e-7)), (2.5e4, (1e-4, 1e-6, 1e-8))):
+        for rel in rels:
+            for corners in ("one", "all"):
+                d = rel * E
+                cs = [(1, 1, 1)] if corners == "one" else list(itertools.product((1, -1), repeat=3))
+                normals = list(ax) + [unit(c) for c in cs]
+                energies = [E] * 6 + [(3 * E - d) / np.sqrt(3.0)] * len(cs)
+                case = {"kind": "small-facet"}
+                check_shape(part, np.array(normals), np.array(energies), case, "small-facet:%s" % corners, scale_test=False, rt=1e-9)
+    part.nontriv("small-facet")
+
+
 def axis_worker(part, chunk, alphabet):
+    if chunk and chunk[0] == "small-facet":
+        small_facet_worker(part, None)
+        return
     if chunk and chunk[0] == "corner":
         corner_family_worker(part, None)
         return
@@ -302,7 +325,7 @@ def run(ctx):
             for ex in extras[1:]:
                 jobs.append((idx, assign, ex))
                 idx += 1
-    ctx.pmap(axis_worker, [["corner"], ["vicinal"]] + list(chunked(jobs, max(1, len(jobs) // 256))), alphabet=alphabet)
+    ctx.pmap(axis_worker, [["corner"], ["vicinal"], ["small-facet"]] + list(chunked(jobs, max(1, len(jobs) // 256))), alphabet=alphabet)
     gjobs = []
     idx = 0
     maxk = 12 if ctx.thorough else 7
@@ -331,6 +354,8 @@ def replay(ctx, case):
         axis_worker(ctx, [(0, tuple(case["assign"]), tuple((tuple(a), e) for a, e in case["extra"]))], tuple(case["alphabet"]))
     elif k == "vicinal":
         vicinal_worker(ctx, None)
+    elif k == "small-facet":
+        small_facet_worker(ctx, None)
     elif k == "corner":
         corner_family_worker(ctx, None)
     elif k == "generic":
